@@ -109,7 +109,23 @@ Qed.
 Lemma verify_true k m s : verify k m s = true → s = Sig k m.
 Proof. unfold verify. apply bool_decide_eq_true. Qed.
 
-#[local] Opaque fund release verify psum pids uids count_in.
+Lemma filter_all_true {A} (f : A → bool) l : (∀ x, In x l → f x = true) → List.filter f l = l.
+Proof.
+  induction l as [|a l IH]; simpl; intros H; [done|].
+  rewrite (H a (or_introl eq_refl)). f_equal. apply IH. intros x Hx. apply H. by right.
+Qed.
+
+Lemma count_in_self sel : count_in (uids sel) (uids sel) = length sel.
+Proof.
+  unfold count_in. rewrite filter_all_true.
+  - unfold uids. apply map_length.
+  - intros i Hi. apply bool_decide_eq_true. by apply elem_of_list_In.
+Qed.
+
+Lemma pool_verdict_true e rin : pool_verdict e rin = true → e_pool_ok e = true.
+Proof. unfold pool_verdict. intros H. by apply andb_true_iff in H as [? _]. Qed.
+
+#[local] Opaque fund release verify psum pids uids count_in pool_verdict.
 
 (** ** Host: symbolic execution of the three handlers *)
 Ltac hstep :=
@@ -162,7 +178,7 @@ Proof.
     (eexists _, _, _, _, _; split; [reflexivity|]; split; [reflexivity|]; split; [eassumption|];
      split; [reflexivity|]; split; [reflexivity|]; split; [reflexivity|];
      split; [reflexivity|]; split; [reflexivity|]; split;
-     [unfold doubly_signed; cbn; repeat split; congruence|reflexivity]).
+     [unfold doubly_signed; cbn; repeat split; congruence|by eapply pool_verdict_true]).
 Qed.
 
 (** What a committed run returns is exactly what its pool accepted: the set, and the basis
@@ -176,6 +192,15 @@ Lemma host_success_returns_pooled fixed k e h m1 m2 :
 Proof.
   intros H. destruct (host_success _ _ _ _ _ _ H) as (r & s & sel & w' & c & _ & _ & _ & Hh & Hf & _).
   eexists _, _. rewrite Hh, Hf. simpl. repeat split; reflexivity.
+Qed.
+
+(** The failing traces of the (repaired) model are admissible: the relaxed comparison of
+    Run_C16 contains the model's own behaviour. *)
+Lemma host_failure_admissible k e h m1 m2 :
+  ho_ok (host_run true k e h m1 m2) = false →
+  admissible_failure k (ho_calls (host_run true k e h m1 m2)) = true.
+Proof.
+  hrun k; try discriminate; intros _; rewrite ?count_in_self; cbn; rewrite ?Nat.eqb_refl; reflexivity.
 Qed.
 
 (** The final response is only ever sent by a run that committed. *)
